@@ -97,6 +97,16 @@ def c17_desc(rng):
         for im in desc["impls"]:
             if rng.random() < 0.7:
                 im["signals"] = [sb for sb in im["signals"] if not any(k.startswith("mux") for k, _ in sb["fields"]) and sb["name"] != "nosuchfield"]
+    # several distinct sender devices on one bus (their order in the artifacts must not depend on hashing), sometimes two buses
+    cans = [im for im in desc["impls"] if im["protocol"] == "can"]
+    pool = ["ecu", "bms", "dash", "gateway", "inverter"]
+    rng.shuffle(pool)
+    for q, im in enumerate(cans):
+        im["fields"] = [(k, v) for k, v in im["fields"] if k not in ("device", "bus")]
+        if rng.random() < 0.85:
+            im["fields"].append(("device", pool[q % len(pool)]))
+        if rng.random() < 0.25:
+            im["fields"].append(("bus", rng.choice(["bus1", "bus2"])))
     for s in desc["structs"]:
         if rng.random() < 0.6:                     # more protocols -> more orders of get_protocols()
             desc["impls"].append({"protocol": rng.choice(["uart", "spi", "eth", "lin"]), "type": s["name"], "name": s["name"] + "X",
